@@ -40,9 +40,9 @@ theorem encode_bias_ok (bias scale shift : Int) (h : InRange bias scale shift) :
   have hb2' : bias < (549755813888 : Int) := by omega
   have hs2' : scale < (4294967296 : Int) := by omega
   have hsh : ((shift % 64).toNat : Int) = shift % 64 := by omega
-  simp only [recordBytes, List.map, byteOf_cast, hsh]
+  simp only [recordBytes, List.map, byteOf_cast, hsh, Int.reducePow, Int.ediv_one]
   py_exec [encode_bias, isinst_mk, pyByteArray, iand_255, iand_63, pySetByte_mk, pySetItem, List.length_replicate,
-    List.length_set, List.length_cons, List.length_nil, Nat.reduceLT, List.replicate, List.set,
+    List.length_set, List.length_cons, List.length_nil, Nat.reduceLT, List.replicate, List.set, Int.ediv_one,
     hb1', hb2', hs1, hs2', hh1, hh2]
 
 /-- out of range: one of the three range asserts fails -/
